@@ -81,6 +81,14 @@ def repaired (I : Impl) : Bool := I.cachesView && I.splitsTarget && I.canonHeade
 def covered (I : Impl) (lr : LReq) : Bool :=
   repaired I && wellFormed lr && (I.encodesPath || validEncodedPath lr.rawPath)
 
+/-- The request line and the header block of the message fit into what the `net/http` servers of the decision and the
+    proxy service read for the head of a request under the configured `buffer_limit.read` (`headerBudget`: the limit,
+    1 MiB if none is configured, plus 4096 bytes). A message with a larger head is answered by those servers
+    themselves (431) and never reaches a rule, while the Envoy gRPC service — to which the request travels as a
+    message — decides it: such requests are outside the statement (a resource limit of the deployment, like the
+    limits of the Envoy proxy itself). The body does not count: `fits l { lr with body := b } = fits l lr`. -/
+def fits (l : Limits) (lr : LReq) : Bool := lr.headLength ≤ headerBudget l
+
 /-! ## Running a rule set on the view -/
 
 /-- the finalizers, all reading the same view `o` -/
@@ -130,7 +138,8 @@ def serve (cfg : Cfg) (lr : LReq) : Run := serveOn cfg (funcs cfg.D lr) (obj lr)
     cookies, and what the upstream application is shown: the client's headers, those of a name the pipeline set
     replaced by the pipeline's value, and the payload as the client sent it. A proxy can only forward if the rule
     names an upstream, which the default rule does not. Nothing of this depends on the log level the services run
-    with or on the length of the body. -/
+    with, on the length of the body or on the configured buffer limits; the host of the view is the host as the
+    client wrote it, a port that is spelled out — be it the default port of the scheme — included. -/
 def answerWith (hand : List Bytes → Bytes) (R : Respond) (lr : LReq) (ep : EP) (r : Run) : Outcome :=
   let seen := r.view.map fun o => ({ obj := o, stable := true } : Seen)
   let refused (d : Dec) : Outcome :=
